@@ -109,6 +109,10 @@ FLOAT_SAMPLES = INT_SAMPLES + ["1.5", ".5", "5.", ".", "1e5", "1E5", "1e+5", "1e
                                "100.01", "1e2", "1.00001e2", "-0.0", "-1e-999", "1e-999", "1e999",
                                "-1e999", "1e-330", "2e-324", "3e-324", "1.7e308", "1.8e308", "99.99",
                                "0.999", "-1", "-1.0", "1.0", "1.0001", "-1.0001", "٣.٥", "1 .5"]
+HEXINT_SAMPLES = ["", "0", "ff", "FF", "0x", "0X1f", "0x_ff", "0x__ff", "_ff", "ff_", "f_f", "f__f",
+                  "+ff", "-ff", "- ff", " ff ", "\tff\n", "0xg", "g", "0_x1", "00", "0x0", "-0x10",
+                  "٠x1f", "٣f", "1٣", "x1", "0xff ", " 0xff", "0 xff", "ff00ff", "0xff00", "+ff00f",
+                  "ff_00f", "1e5", "0b1", "0o7", "１f", "\x1cff", "ff\x1f", "ff　"]
 HEX_SAMPLES = ["", "00", "ff", "FF", "0g", "abc", "a b ", "٣٣", "zz", "01020304", "AbCd"]
 
 
@@ -141,6 +145,11 @@ def conformance():
                 want, got = outcome(native), outcome(model)
                 w.check(got == want, f"model conformance: {lo} <= float({s!r}) <= {hi}: native "
                                      f"{want}, model {got}")
+        for s in HEXINT_SAMPLES:
+            want = outcome(lambda: int(s, 16))
+            got = outcome(lambda: models.m_int(it, [pinned(w, s), 16], {}))
+            w.check(norm(w, got) == want, f"model conformance: int({s!r}, 16): native {want}, "
+                                          f"model {norm(w, got)}")
         for s in HEX_SAMPLES:
             want = outcome(lambda: binascii.unhexlify(s))
             got = outcome(lambda: models.m_unhexlify(it, [pinned(w, s)], {}))
@@ -179,7 +188,8 @@ def build(tier):
                  "harvested from /repo/tests", "versions": C.VERSIONS}, goals=["validated"],
                 doc="interpreter (all-concrete) vs native CPython: replies, emissions, state"),
         Harness("model-conformance", conformance(),
-                {"int": len(INT_SAMPLES), "float": len(FLOAT_SAMPLES), "hex": len(HEX_SAMPLES)},
+                {"int": len(INT_SAMPLES), "float": len(FLOAT_SAMPLES), "hex": len(HEX_SAMPLES),
+                 "int16": len(HEXINT_SAMPLES)},
                 goals=["conform"], doc="int()/float()/unhexlify models vs the real functions"),
     ]
     return {
